@@ -135,6 +135,8 @@ trait Col {
     fn save(&self) -> Vec<u8>;
     fn load(b: &[u8]) -> Result<Self, PackError> where Self: Sized;
     fn load_len(b: &[u8], n: usize) -> Result<Self, PackError> where Self: Sized;
+    /// load under a slab budget (`LoadOpts::with_max_segments`); kinds without one load plainly
+    fn load_seg(b: &[u8], _seg: usize) -> Result<Self, PackError> where Self: Sized { Self::load(b) }
     fn load_fill(_b: &[u8], _n: usize, _v: Self::V) -> Option<Result<Self, PackError>> where Self: Sized { None }
     /// extra query tokens of the specialised column kinds; `None` = not a query of this kind
     fn query(&self, _tok: &[&str]) -> Option<String> { None }
@@ -174,6 +176,9 @@ impl<T: ColumnValueRef + HV> Col for Plain<T> {
     fn load(b: &[u8]) -> Result<Self, PackError> { Column::<T>::load(b).map(Plain) }
     fn load_len(b: &[u8], n: usize) -> Result<Self, PackError> {
         Column::<T>::load_with(b, LoadOpts::new().with_length(n)).map(Plain)
+    }
+    fn load_seg(b: &[u8], seg: usize) -> Result<Self, PackError> {
+        Column::<T>::load_with(b, LoadOpts::new().with_max_segments(seg)).map(Plain)
     }
     fn load_fill(b: &[u8], n: usize, v: T) -> Option<Result<Self, PackError>> {
         // the fill value is borrowed for the duration of the load only
@@ -243,6 +248,9 @@ impl<T: PreKind> Col for Pre<T> {
     fn load(b: &[u8]) -> Result<Self, PackError> { PrefixColumn::<T>::load(b).map(Pre) }
     fn load_len(b: &[u8], n: usize) -> Result<Self, PackError> {
         PrefixColumn::<T>::load_with(b, LoadOpts::new().with_length(n)).map(Pre)
+    }
+    fn load_seg(b: &[u8], seg: usize) -> Result<Self, PackError> {
+        PrefixColumn::<T>::load_with(b, LoadOpts::new().with_max_segments(seg)).map(Pre)
     }
     fn load_fill(b: &[u8], n: usize, v: T) -> Option<Result<Self, PackError>> {
         Some(PrefixColumn::<T>::load_with(b, LoadOpts::new().with_length(n).with_fill(v.as_column_ref())).map(Pre))
@@ -334,6 +342,9 @@ impl<T: DeltaKind> Col for Delta<T> {
     fn load(b: &[u8]) -> Result<Self, PackError> { DeltaColumn::<T>::load(b).map(Delta) }
     fn load_len(b: &[u8], n: usize) -> Result<Self, PackError> {
         DeltaColumn::<T>::load_with(b, LoadOpts::new().with_length(n)).map(Delta)
+    }
+    fn load_seg(b: &[u8], seg: usize) -> Result<Self, PackError> {
+        DeltaColumn::<T>::load_with(b, LoadOpts::new().with_max_segments(seg)).map(Delta)
     }
     fn query(&self, tok: &[&str]) -> Option<String> {
         match tok[0] {
@@ -549,14 +560,17 @@ fn run_prog<C: Col>(toks: &[&str]) -> Vec<String> {
 fn run_load<C: Col>(bytes: &[u8], opts: &[&str]) -> Vec<String> {
     let mut len: Option<usize> = None;
     let mut fill: Option<C::V> = None;
+    // seg=N: the slab budget of the loader; the loaded VALUES and the re-saved bytes must not depend on it
+    let mut seg: Option<usize> = None;
     for o in opts {
         if let Some(n) = o.strip_prefix("len=") { len = Some(n.parse().unwrap()); }
         if let Some(v) = o.strip_prefix("fill=") { fill = Some(C::V::parse(v)); }
+        if let Some(n) = o.strip_prefix("seg=") { seg = Some(n.parse().unwrap()); }
     }
     let res = catch_unwind(AssertUnwindSafe(|| match (len, fill.clone()) {
         (Some(n), Some(v)) => C::load_fill(bytes, n, v),
         (Some(n), None) => Some(C::load_len(bytes, n)),
-        _ => Some(C::load(bytes)),
+        _ => match seg { Some(k) => Some(C::load_seg(bytes, k)), None => Some(C::load(bytes)) },
     }));
     let res = match res {
         Ok(Some(r)) => r,
@@ -589,6 +603,13 @@ fn run_load<C: Col>(bytes: &[u8], opts: &[&str]) -> Vec<String> {
             match C::load(&resaved) {
                 Ok(l) => { if l.to_vec() != vals { out.push("! C35 re-saved bytes load to different values".into()); } }
                 Err(e) => out.push(format!("! C35 re-saved bytes do not load: {}", e)),
+            }
+            // C35 direct oracle: the slab budget of the loader changes neither the values nor the re-saved bytes
+            if let (Some(k), None) = (seg, len) {
+                if let Ok(Ok(p)) = catch_unwind(AssertUnwindSafe(|| C::load(bytes))) {
+                    if p.to_vec() != vals { out.push(format!("! C35 sig=slab-budget-values the same bytes loaded with max_segments={} give different values than the default load", k)); }
+                    else if p.save() != resaved { out.push(format!("! C35 sig=slab-budget-bytes the same bytes loaded with max_segments={} re-save to different bytes than after the default load", k)); }
+                }
             }
             // reads on the loaded column agree with the value list
             let mut fails = vec![];
@@ -1045,6 +1066,12 @@ pub fn generate(r: &mut Rng, _opts: &BTreeMap<String, String>, sess: &mut Sessio
     let valid = unhx(built.iter().find(|l| l.starts_with("ok ")).unwrap().split(' ').nth(1).unwrap());
     exec_line(sess, &format!("hexane.load {} {} {}", ct2, vt2, hx(&valid)), out);
     out.count("load_valid");
+    // the same valid bytes under two slab budgets (even and odd halves): same values, same re-saved bytes
+    for _ in 0..2 {
+        let k = r.range(2, 24);
+        exec_line(sess, &format!("hexane.load {} {} {} seg={}", ct2, vt2, hx(&valid), k), out);
+        out.count("load_valid_slab_budget");
+    }
     for _ in 0..4 {
         let m = mutate(r, valid.clone(), out);
         exec_line(sess, &format!("hexane.load {} {} {}", ct2, vt2, hx(&m)), out);
